@@ -41,6 +41,7 @@ func checkC10(w *World, r *Report) {
 	checkBarExit(w, r, "C10")
 	ruleHandover(w, r, "C10.HANDOVER")
 	ruleLoopVarCapture(w, r, "C10.LOOPVAR")
+	ruleThreadSafeAverage(w, r, "C10.TSMA")
 }
 
 // ruleHandover: on every exit path of the bar loop nothing touches the bar state after it was
